@@ -146,9 +146,19 @@ package net
 
 //@ contract (*Prefix).Valid
 //@   props C15
-//@   requires spec_okPfx(*p)
-//@   ensures result == spec_hostZero(p.addr, p.len)
+//@   ensures spec_okPfx(*p) ==> result == spec_hostZero(p.addr, p.len)
 //@   modifies nothing
+
+// Printing (reached from error messages of the decoders): no index out of range.
+//@ contract IP.stringIPv6
+//@   props C16 C30
+//@   loop 0 vars i int, e0 int, e1 int
+//@   loop 0 invariant i >= 0 && i%2 == 0 && i <= 18
+//@   loop 0 invariant (e0 == -1 && e1 == -1) || (e0 >= 0 && e0%2 == 0 && e1%2 == 0 && e1 > e0 && e1 <= int(ip.SizeBytes()))
+//@   loop 1 vars i int, j int
+//@   loop 1 invariant j%2 == 0 && j >= i && j <= int(ip.SizeBytes())
+//@   loop 2 vars i int
+//@   loop 2 invariant i >= 0 && i%2 == 0
 
 //@ contract (*Prefix).BaseAddr
 //@   props C15
@@ -207,6 +217,18 @@ package net
 //@   ensures result.isLegacy == ip.isLegacy
 //@   ensures !ip.isLegacy ==> (result.lower == ip.lower+1 && (result.higher == ip.higher+1) == (ip.lower == ^uint64(0)) && (result.higher == ip.higher) == (ip.lower != ^uint64(0)))
 //@   ensures ip.isLegacy && uint32(ip.lower) != ^uint32(0) ==> (result.lower == ip.lower+1 && result.higher == 0)
+//@   modifies nothing
+
+// The de-duplication caches (global maps behind a mutex) are not verified; their
+// effect on callers is that of the identity.
+//@ contract Prefix.Dedup
+//@   trusted de-duplication cache: returns a pointer to an equal value
+//@   ensures result != nil && *result == p
+//@   modifies nothing
+
+//@ contract IP.Dedup
+//@   trusted de-duplication cache: returns a pointer to an equal value
+//@   ensures result != nil && *result == ip
 //@   modifies nothing
 
 //@ contract (*IP).MaskLastNBits
